@@ -770,7 +770,9 @@ class NoTraceOracle(Observer):
     def before(self, w, ev):
         if ev["k"] in self.KINDS:
             self.snap = self._snapshot(w)
-            self.lingering = {h for h, t in w.T.items() if t.base is not None and t.creator is None}
+            # half-forgotten view links: the tensor's graph was cleared, or its base was (and no
+            # longer lists it); any use - successful or not - may drop such a link (DESIGN C13)
+            self.lingering = {h for h, t in w.T.items() if t.base is not None and (t.creator is None or w.info[h].stale)}
         else:
             self.snap = None
 
@@ -1376,3 +1378,203 @@ class RepeatOracle(Observer):
                     return
         if n:
             w.probe("c07.repeat_identical")
+
+
+# ======================================================================================
+# C15 - no_autodiff / mem-guard switches
+# ======================================================================================
+class SwitchOracle(Observer):
+    """M4: after every enter, exit (normal or exceptional), toggle and statement, both switches
+    equal the per-manager stack model; read through the public mem_guard_active(), the anchored
+    TRACK_GRAPH, and a behavioural probe statement."""
+
+    def _check(self, w, where):
+        try:
+            guard = bool(mg.mem_guard_active())
+        except Exception:
+            guard = None
+        track = getattr(_track, "TRACK_GRAPH", None)
+        if track is None:
+            w.probe("seam_missing.TRACK_GRAPH")
+        if guard is not None and guard != w.guard:
+            w.violation("C15", "C15.mem_guard_switch", f"step {w.nstep} ({where}): mem_guard_active() is {guard}, the scope model says {w.guard} (stack {w.scope_stack})", tag=f"C15.mem_guard_switch/{where.split(':')[0]}")
+            return False
+        if track is not None and bool(track) != w.tracking:
+            w.violation("C15", "C15.track_switch", f"step {w.nstep} ({where}): graph tracking is {track}, the scope model says {w.tracking} (stack {w.scope_stack})", tag=f"C15.track_switch/{where.split(':')[0]}")
+            return False
+        # behavioural probe: does a statement record a graph / lock memory right now?
+        a = np.ones(2)
+        t = mg.add(a, 1.0)
+        rec = t.creator is not None
+        locked = not a.flags.writeable
+        del t
+        if rec != w.tracking:
+            w.violation("C15", "C15.track_behaviour", f"step {w.nstep} ({where}): a probe statement {'recorded' if rec else 'did not record'} a graph, the scope model says tracking={w.tracking}", tag=f"C15.track_behaviour/{where.split(':')[0]}")
+            return False
+        if locked != (w.tracking and w.guard):
+            w.violation("C15", "C15.guard_behaviour", f"step {w.nstep} ({where}): a probe statement {'locked' if locked else 'did not lock'} its input, the scope model says tracking={w.tracking} guard={w.guard}", tag=f"C15.guard_behaviour/{where.split(':')[0]}")
+            return False
+        if not a.flags.writeable:
+            w.violation("C15", "C15.probe_lock_left", f"step {w.nstep} ({where}): the probe statement's input stayed locked after its result was dropped", tag="C15.probe_lock_left")
+            return False
+        w.probe("c15.switch_checked")
+        return True
+
+    def scope_event(self, w, what, name):
+        self._check(w, f"{what}:{name}")
+
+    def after(self, w, ev, out):
+        if ev["k"] != "scope":
+            self._check(w, "after:" + ev["k"])
+
+    def at_quiescence(self, w, held_arrays, orig, entered):
+        if w.scope_stack:
+            return
+        self._check(w, "quiescence")
+
+
+class NoAutodiffOracle(Observer):
+    """inside no_autodiff: same values/dtypes, nothing recorded, inputs keep consumers and grads,
+    no array locked, in-place writes straight into memory, backward() does nothing."""
+
+    def attach(self, w):
+        self.pre = None
+
+    @staticmethod
+    def _nops(t):
+        ops = getattr(t, "_ops", None)
+        return None if ops is None else len(ops)
+
+    def before(self, w, ev):
+        self.pre = None
+        if w.tracking or ev["k"] not in ("op", "inplace", "backward", "terminal", "nnet", "setshape", "clear"):
+            return
+        st = {}
+        for h, t in w.T.items():
+            g = w.read_grad(t, h)
+            st[h] = (self._nops(t), None if g is None else np.asarray(g).tobytes(), id(t.creator) if t.creator is not None else None, id(t.data), bool(t.data.flags.writeable))
+        fl = {ha: bool(a.flags.writeable) for ha, a in w.A.items()}
+        self.pre = (st, fl)
+
+    def after(self, w, ev, out):
+        if self.pre is None or out.status != "ok":
+            self.pre = None
+            return
+        st, fl = self.pre
+        self.pre = None
+        k = ev["k"]
+        what = k + ":" + str(ev.get("form") or ev.get("op") or "")
+        tgt = ev.get("tgt") if k in ("inplace", "setshape") else None
+        for h, (nops, gb, cid, did, wr) in st.items():
+            if h not in w.T:
+                continue
+            t = w.T[h]
+            if self._nops(t) != nops:
+                if w.violation("C15", "C15.untracked_recorded_consumer", f"step {w.nstep} ({what}): inside no_autodiff handle {h} gained/lost recorded consumers", tag=f"C15.untracked_recorded_consumer/{what}"):
+                    return
+            g = w.read_grad(t, h)
+            gb2 = None if g is None else np.asarray(g).tobytes()
+            if gb2 != gb and not (k == "setshape" and h == tgt):
+                if w.violation("C15", "C15.untracked_grad_changed", f"step {w.nstep} ({what}): inside no_autodiff the gradient of handle {h} changed", tag=f"C15.untracked_grad_changed/{what}"):
+                    return
+            c2 = id(t.creator) if t.creator is not None else None
+            if c2 != cid and k != "clear":
+                if w.violation("C15", "C15.untracked_creator_changed", f"step {w.nstep} ({what}): inside no_autodiff the creator of handle {h} changed", tag=f"C15.untracked_creator_changed/{what}"):
+                    return
+            if id(t.data) != did:
+                if w.violation("C15", "C15.untracked_inplace_copied", f"step {w.nstep} ({what}): inside no_autodiff handle {h}'s memory was replaced instead of written in place", tag=f"C15.untracked_inplace_copied/{what}"):
+                    return
+            if bool(t.data.flags.writeable) != wr:
+                if w.violation("C15", "C15.untracked_lock", f"step {w.nstep} ({what}): inside no_autodiff the writeable flag of handle {h}'s memory changed", tag=f"C15.untracked_lock/{what}"):
+                    return
+        for ha, wr in fl.items():
+            if ha in w.A and bool(w.A[ha].flags.writeable) != wr:
+                if w.violation("C15", "C15.untracked_lock", f"step {w.nstep} ({what}): inside no_autodiff the writeable flag of caller array {ha} changed", tag=f"C15.untracked_lock/{what}/caller_array"):
+                    return
+        if k in ("op", "terminal", "nnet") and ev["out"] in w.T:
+            t = w.T[ev["out"]]
+            if t.creator is not None or t.base is not None:
+                if w.violation("C15", "C15.untracked_result_recorded", f"step {w.nstep} ({what}): a result created inside no_autodiff has a creator or a base", tag=f"C15.untracked_result_recorded/{what}"):
+                    return
+            s = w.S.get(ev["out"])
+            if k == "op" and s is not None and (t.data.shape != s.shape or t.data.dtype != s.dtype or not np.array_equal(t.data, s, equal_nan=True)):
+                if w.violation("C15", "C15.untracked_value", f"step {w.nstep} ({what}): inside no_autodiff the result differs from the tracked/NumPy result", tag=f"C15.untracked_value/{what}"):
+                    return
+        if k == "inplace" and w.last_inplace and w.last_inplace.get("value_ok") is False:
+            if w.violation("C15", "C15.untracked_inplace_value", f"step {w.nstep} ({what}): inside no_autodiff the in-place update left different values than NumPy's", tag=f"C15.untracked_inplace_value/{what}"):
+                return
+        w.probe("c15.untracked_statement_checked")
+
+
+# ======================================================================================
+# C18 - save / load
+# ======================================================================================
+class SaveLoadOracle(Observer):
+    def attach(self, w):
+        self.pre = None
+
+    @staticmethod
+    def _snap(w, h):
+        t = w.T[h]
+        g = w.read_grad(t, h)
+        return (
+            t.data.tobytes(),
+            str(t.dtype),
+            t.shape,
+            None if g is None else (np.asarray(g).tobytes(), str(np.asarray(g).dtype), np.asarray(g).shape),
+            id(t.creator) if t.creator is not None else None,
+            None if getattr(t, "_ops", None) is None else len(t._ops),
+            bool(t.data.flags.writeable),
+            id(t.base) if t.base is not None else None,
+            bool(t.constant),
+        )
+
+    def before(self, w, ev):
+        self.pre = None
+        if ev["k"] == "save":
+            self.pre = {h: self._snap(w, h) for h in w.T}
+
+    def after(self, w, ev, out):
+        k = ev["k"]
+        if k == "save" and self.pre is not None:
+            names = ("data", "dtype", "shape", "grad", "creator", "consumers", "writeable flag", "base", "constant")
+            for h, a in self.pre.items():
+                if h not in w.T:
+                    continue
+                b = self._snap(w, h)
+                for n, x, y in zip(names, a, b):
+                    if x != y:
+                        if w.violation("C18", "C18.save_altered", f"step {w.nstep}: save() ({out.cls()}) changed the {n} of handle {h}", tag=f"C18.save_altered/{n}/{'failed_write' if out.status == 'fail' else 'ok'}"):
+                            return
+            self.pre = None
+            w.probe("c18.save_checked")
+            return
+        if k == "load" and out.status == "unexp":
+            w.violation("C18", "C18.load_raised", f"step {w.nstep}: load() of a successfully saved tensor raised {out.exc}: {out.msg[:120]}", tag=f"C18.load_raised/{out.exc}")
+            return
+        if k == "load" and out.status == "ok" and w.last_load is not None:
+            h, snap = w.last_load
+            w.last_load = None
+            t = w.T[h]
+            kind = f"dtype={snap['dtype']}/ndim={len(snap['shape'])}"
+            if t.shape != snap["shape"] or t.dtype != snap["dtype"]:
+                if w.violation("C18", "C18.roundtrip_shape_dtype", f"step {w.nstep}: loaded tensor has shape/dtype {t.shape}/{t.dtype}, saved {snap['shape']}/{snap['dtype']}", tag=f"C18.roundtrip_shape_dtype/{kind}"):
+                    return
+            elif not np.array_equal(t.data, snap["data"], equal_nan=True):
+                if w.violation("C18", "C18.roundtrip_data", f"step {w.nstep}: loaded data differ from the saved tensor's", tag=f"C18.roundtrip_data/{kind}"):
+                    return
+            g = w.read_grad(t, h)
+            sg = snap["grad"]
+            if not w.tracking:
+                w.count("c18.load_untracked_grad_unjudged")
+            elif (g is None) != (sg is None):
+                if w.violation("C18", "C18.roundtrip_grad_presence", f"step {w.nstep}: saved tensor {'had' if sg is not None else 'had no'} gradient, loaded tensor {'has' if g is not None else 'has none'}", tag=f"C18.roundtrip_grad_presence/{'lost' if g is None else 'appeared'}/{kind}"):
+                    return
+            elif g is not None:
+                ga = np.asarray(g)
+                if ga.shape != sg.shape or ga.dtype != snap["grad_dtype"] or not np.array_equal(ga, sg, equal_nan=True):
+                    if w.violation("C18", "C18.roundtrip_grad", f"step {w.nstep}: loaded gradient (shape {ga.shape}, dtype {ga.dtype}) differs from the saved one (shape {sg.shape}, dtype {snap['grad_dtype']})", tag=f"C18.roundtrip_grad/{kind}"):
+                        return
+            w.probe("c18.roundtrip_checked")
+            if sg is not None:
+                w.probe("c18.roundtrip_with_grad")
